@@ -720,3 +720,38 @@ Proof.
     + destruct (wf_cover _ _ _ W k' Hk') as (s & Hs & Ks). exists s. split; [now right|assumption].
     + exists (new_species id k). split; [now left|]. cbn. now left.
 Qed.
+
+(* ---------- inversion of [bind] on plain results ---------- *)
+Lemma bind_ok {A B} (r : res A) (f : A -> res B) b : bind r f = Ok b -> exists a, r = Ok a /\ f a = Ok b.
+Proof. destruct r; cbn; try discriminate. eauto. Qed.
+
+Tactic Notation "rbind" hyp(H) "as" ident(a) ident(Ha) :=
+  apply bind_ok in H; destruct H as [a [Ha H]].
+
+Lemma hgets_in h ks xs x : hgets h ks = Ok xs -> In x xs -> hget h (o_key x) = Ok x /\ In (o_key x) ks.
+Proof.
+  intros H. apply hgets_ok in H. induction H as [|k y ks xs E _ IH]; intros Hi; [contradiction|].
+  destruct Hi as [->|Hi].
+  - pose proof (hget_key _ _ _ E) as Ek. rewrite Ek. split; [assumption|now left].
+  - destruct (IH Hi). split; [assumption|now right].
+Qed.
+
+Lemma first_org_ok h s c : first_org h s = Ok c -> exists k r, sp_orgs s = k :: r /\ hget h k = Ok c.
+Proof. unfold first_org. destruct (sp_orgs s) as [|k r]; [discriminate|]. eauto. Qed.
+
+Lemma set_champ_super_ok h s n h1 : set_champ_super h s n = Ok h1 -> hframe o_species h h1.
+Proof.
+  unfold set_champ_super. intros H. rbind H as c Hc. injection H as <-.
+  apply first_org_ok in Hc. destruct Hc as (k & r & _ & Hk).
+  apply (hframe_hset_get o_species h c); [|reflexivity]. cbn. now rewrite (hget_key _ _ _ Hk).
+Qed.
+
+Lemma forall2_sim_ids l l1 : Forall2 sp_sim l l1 -> map sp_id l1 = map sp_id l.
+Proof. induction 1 as [|a b l l1 S _ IH]; cbn; [reflexivity|]. f_equal; [apply S|exact IH]. Qed.
+
+Lemma forall2_sim_replace_nodup l b s' :
+  NoDup (map sp_id l) -> In b l -> sp_sim b s' -> Forall2 sp_sim l (sp_replace l s').
+Proof.
+  intros Hn Hb S. apply forall2_sim_replace. intros s Hs E.
+  assert (s = b); [|now subst]. eapply nodup_ids_eq; eauto. destruct S as (Eb & _). congruence.
+Qed.
